@@ -79,6 +79,9 @@ pub struct C12Scenario {
     pub clock_step_ns: i64,
     #[serde(default)]
     pub cpus: u32,
+    /// the temp directory the environment names (TMPDIR, TMP, TEMP) does not exist
+    #[serde(default)]
+    pub tmp_missing: bool,
     pub pid: i32,
     pub schedule: Vec<Round>,
     #[serde(default)]
